@@ -121,6 +121,21 @@ theorem lock_changes_only_by (st : State) (op : Op) :
       repeat (first | (split at h) | cases h)
       all_goals (first | rfl | skip)
   | interactive on => rfl
+  | singleton key c =>
+    simp only [step]
+    cases h : st.singletonUse key c with
+    | error e => rfl
+    | ok r =>
+      obtain ⟨st', v⟩ := r
+      simp only
+      unfold State.singletonUse at h
+      split at h
+      · cases h; rfl
+      · split at h
+        · cases h
+        · simp only [Except.ok.injEq, Prod.mk.injEq] at h
+          obtain ⟨h1, _⟩ := h
+          subst h1; rfl
   | observe w => rfl
   | enter cur arg => simp only [step]; split <;> rfl
 
